@@ -51,6 +51,9 @@ namespace sim
 #ifndef SIM_SET_PRIVSTATE
 #define SIM_SET_PRIVSTATE 1
 #endif
+#ifndef SIM_SET_TREEOPS
+#define SIM_SET_TREEOPS 0
+#endif
 
    template< typename In, template< typename... > class Control, typename... St >
    constexpr unsigned set_caps()
@@ -79,6 +82,9 @@ namespace sim
       }
       if( SIM_SET_PRIVSTATE ) {
          c |= CAP_PRIVSTATE;
+      }
+      if( SIM_SET_TREEOPS ) {
+         c |= CAP_TREEOPS;
       }
       return c;
    }
